@@ -76,12 +76,12 @@ Definition seg_payload (m : hmode) (block : list Z) (rows : list row) : list Z :
   match m with HOne => col_val rows | _ => block end.
 
 Lemma tag_ranges : forall t,
-  (16 <? one_tag t) && (one_tag t <? 21) = true /\
-  (16 <? full_tag t) && (full_tag t <? 21) = false /\ (30 <? full_tag t) && (full_tag t <? 35) = true /\
-  (16 <? empty_tag t) && (empty_tag t <? 21) = false /\ (30 <? empty_tag t) && (empty_tag t <? 35) = false /\
-  (40 <? empty_tag t) && (empty_tag t <? 45) = true /\
-  (16 <? base_tag t) && (base_tag t <? 21) = false /\ (30 <? base_tag t) && (base_tag t <? 35) = false /\
-  (40 <? base_tag t) && (base_tag t <? 45) = false.
+  (g_one_begin <? one_tag t) && (one_tag t <? g_one_end) = true /\
+  (g_one_begin <? full_tag t) && (full_tag t <? g_one_end) = false /\ (g_full_begin <? full_tag t) && (full_tag t <? g_full_end) = true /\
+  (g_one_begin <? empty_tag t) && (empty_tag t <? g_one_end) = false /\ (g_full_begin <? empty_tag t) && (empty_tag t <? g_full_end) = false /\
+  (g_empty_begin <? empty_tag t) && (empty_tag t <? g_empty_end) = true /\
+  (g_one_begin <? base_tag t) && (base_tag t <? g_one_end) = false /\ (g_full_begin <? base_tag t) && (base_tag t <? g_full_end) = false /\
+  (g_empty_begin <? base_tag t) && (base_tag t <? g_empty_end) = false.
 Proof. destruct t; vm_compute; repeat split. Qed.
 
 (* whatever block follows the header, the reader recovers exactly the null pattern of the rows and hands exactly that
